@@ -32,6 +32,8 @@ def make_resolver(tn, fd, wrap=None):
         if tuple(path) in ctx.boom_paths:
             raise RX.Boom(tuple(path))
         b = ctx.behaviour(tn, fd, path, args)
+        if tl is not None:
+            tl.append(("ret", tuple(path)))
         if b[0] == "error":
             raise ResolverError(b[1], extensions=b[2])
         return b[1]
